@@ -59,6 +59,19 @@ pub struct World {
     raw: Option<RawPeerState>,
     pub step: usize,
     sched_phase: u8,
+    /// tokio context (paused clock) entered for the lifetime of the world when a side uses keepalive; declared last
+    clock: Option<tokio::runtime::EnterGuard<'static>>,
+}
+
+pub const KEEPALIVE_TICK: std::time::Duration = std::time::Duration::from_millis(100);
+
+/// one paused-clock current-thread runtime per harness thread; it never runs tasks, it only owns the timer wheel that the
+/// endpoints' keepalive intervals register with, and `What::Tick` advances it
+fn sim_runtime() -> &'static tokio::runtime::Runtime {
+    thread_local! {
+        static RT: &'static tokio::runtime::Runtime = Box::leak(Box::new(tokio::runtime::Builder::new_current_thread().enable_time().start_paused(true).build().expect("runtime")));
+    }
+    RT.with(|r| *r)
 }
 
 fn mk_host(idx: usize, pad: &[u8]) -> Vec<u8> {
@@ -67,6 +80,7 @@ fn mk_host(idx: usize, pad: &[u8]) -> Vec<u8> {
 
 impl World {
     pub fn new(case: &Case) -> World {
+        let clock = if case.keepalive.iter().any(|k| *k) { Some(sim_runtime().enter()) } else { None };
         let log = Log::default();
         let link = SharedLink::new([case.cap[0].map(|c| c.max(1) as usize), case.cap[1].map(|c| c.max(1) as usize)]);
         let parking = Parking::default();
@@ -78,7 +92,11 @@ impl World {
         for &side in sides {
             let ws = SimWs { side, link: link.clone(), log: log.clone() };
             let rng = ScriptRng::new(&case.rng[side], 0xC0FFEE ^ (side as u64) << 7);
-            let (mux, taskdata) = Multiplexor::new_detailed::<_, std::time::Instant>(ws, case.opts[side].options(), rng);
+            let mut options = case.opts[side].options();
+            if case.keepalive[side] {
+                options = options.keepalive_interval(KEEPALIVE_TICK.into());
+            }
+            let (mux, taskdata) = Multiplexor::new_detailed::<_, std::time::Instant>(ws, options, rng);
             muxes[side] = Some(Rc::new(mux));
             let l2 = log.clone();
             sp.spawn(format!("mux{side}"), TaskKind::Mux(side), async move {
@@ -289,6 +307,7 @@ impl World {
             raw: case.raw.clone().map(|policy| RawPeerState { policy, connects_seen: 0, pushes: BTreeMap::new() }),
             step: 0,
             sched_phase: case.sched_phase,
+            clock,
         }
     }
 
@@ -464,6 +483,12 @@ impl World {
             What::Wake(n) => {
                 self.log.app(AppEv::Note(format!("wake {n}")));
                 self.parking.wake(n);
+            }
+            What::Tick => {
+                self.log.app(AppEv::Note("tick".into()));
+                if self.clock.is_some() {
+                    sim_runtime().block_on(tokio::time::advance(KEEPALIVE_TICK));
+                }
             }
         }
     }
